@@ -25,19 +25,21 @@ type wc struct {
 
 // Profile biases the generator for one property.
 type Profile struct {
-	Top      []wc // weights of top-level block kinds
-	Nested   []wc // weights of block kinds inside containers, list items, quotes, cells
-	Core     []wc // if set: weights of block kinds inside the article core (see page)
-	MinTop   int
-	MaxTop   int
-	MaxDepth int
-	Title    bool                           // emit a <title> (tokens are class A: they live in head)
-	Attr     func(g *G, tag string) string  // extra attributes for any element ("" if none)
-	URL      func(g *G, kind string) string // URL reference for anchors and media
-	LenMix   [3]int                         // weights of short / medium / long paragraphs
-	Inline   []wc                           // weights of inline run kinds
-	HeadJunk bool                           // script/style in head
-	Carriers int                            // percentage chance of class A / class B carriers inside cells, captions, tweets
+	Top           []wc // weights of top-level block kinds
+	Nested        []wc // weights of block kinds inside containers, list items, quotes, cells
+	Core          []wc // if set: weights of block kinds inside the article core (see page)
+	MinTop        int
+	MaxTop        int
+	MaxDepth      int
+	Title         bool                           // emit a <title> (tokens are class A: they live in head)
+	Attr          func(g *G, tag string) string  // extra attributes for any element ("" if none)
+	URL           func(g *G, kind string) string // URL reference for anchors and media
+	LenMix        [3]int                         // weights of short / medium / long paragraphs
+	Inline        []wc                           // weights of inline run kinds
+	HeadJunk      bool                           // script/style in head
+	Carriers      int                            // percentage chance of class A / class B carriers inside cells, captions, tweets
+	TablesInLists int                            // weight of data tables as the (only) content of list items and quotes
+	CommaURLs     bool                           // image URLs may hold commas (w_400,h_300 style path segments)
 }
 
 func newG(t *rapid.T, p *Profile) *G {
@@ -121,14 +123,28 @@ func (g *G) url(kind string) string {
 	if g.P.URL != nil {
 		return g.P.URL(g, kind)
 	}
+	// a third of the references are path-relative, so that their resolution depends on the page's directory
+	rel := ""
+	switch g.intn(0, 5, "urlrel") {
+	case 4:
+		rel = "rel"
+	case 5:
+		rel = "../up"
+	}
 	switch kind {
 	case "a":
-		return "/link/" + g.tokp("l") + ".html"
+		return rel + "/link/" + g.tokp("l") + ".html"
 	case "video", "source-v":
-		return "/vid/" + g.tokp("v") + ".mp4"
+		return rel + "/vid/" + g.tokp("v") + ".mp4"
 	case "track":
-		return "/vid/" + g.tokp("v") + ".vtt"
+		return rel + "/vid/" + g.tokp("v") + ".vtt"
 	default:
+		if rel != "" {
+			return rel + "/img/" + g.tokp("i") + ".png"
+		}
+		if g.P.CommaURLs && g.intn(0, 3, "commaurl") == 0 {
+			return "/img/w_400,h_300/" + g.tokp("i") + ".png"
+		}
 		return "/img/" + g.tokp("i") + ".png"
 	}
 }
@@ -149,7 +165,7 @@ func (g *G) plen() int {
 }
 
 var defaultInline = []wc{{"text", 50}, {"b", 5}, {"i", 4}, {"em", 4}, {"strong", 4}, {"span", 5}, {"u", 2}, {"code", 3},
-	{"font", 3}, {"a", 8}, {"ajs1", 4}, {"ajsn", 2}, {"br", 3}, {"nest", 3}}
+	{"font", 3}, {"a", 8}, {"ajs1", 4}, {"ajsn", 2}, {"br", 3}, {"nest", 3}, {"brbr", 2}}
 
 // inline emits about k words as a mix of inline runs. Runs are always separated by white-space.
 func (g *G) inline(k int) string {
@@ -175,13 +191,25 @@ func (g *G) inline(k int) string {
 			parts = append(parts, `<a href="javascript:void(0)"`+g.at("a")+">"+g.words(n)+"</a>")
 		case "ajsn":
 			m := g.intn(1, n, "ajsn")
-			parts = append(parts, `<a href="javascript:go(`+fmt.Sprint(g.n)+`)">`+"<b>"+g.words(m)+"</b> "+g.words(max(1, n-m))+"</a>")
-			n = m + max(1, n-m)
+			switch g.intn(0, 2, "ajsnform") {
+			case 0:
+				parts = append(parts, `<a href="javascript:go(`+fmt.Sprint(g.n)+`)">`+"<b>"+g.words(m)+"</b> "+g.words(max(1, n-m))+"</a>")
+				n = m + max(1, n-m)
+			case 1:
+				parts = append(parts, `<a href="javascript:void(0)">`+g.words(m)+" <b>"+g.words(max(1, n-m))+"</b> "+g.words(1)+"</a>")
+				n = m + max(1, n-m) + 1
+			default:
+				parts = append(parts, `<a href="javascript:;">`+g.words(m)+"<br>"+g.words(max(1, n-m))+"</a>")
+				n = m + max(1, n-m)
+			}
+		case "brbr":
+			parts = append(parts, g.pick("brbrform", "<br><br>", "<br> <br>", "<br>\n<br>", "<br><br><br>")+g.words(n))
 		case "br":
 			parts = append(parts, "<br>"+g.words(n))
 		case "hid":
 			g.push("ha")
-			parts = append(parts, g.hiddenOpen("span")+g.words(n)+"</span>")
+			tag := g.pick("hidinl", "span", "span", "font", "b", "i", "em", "strong", "u", "code", "a")
+			parts = append(parts, g.hiddenOpen(tag)+g.words(n)+"</"+tag+">")
 			g.pop()
 			n = 0
 		case "cbinl":
@@ -251,7 +279,11 @@ func (g *G) list() string {
 	g.depth++
 	for i := 0; i < n; i++ {
 		b.WriteString("<li" + g.at("li") + ">")
-		switch g.weighted("lik", []wc{{"inline", 45}, {"p", 20}, {"nested", 15}, {"pre", 5}, {"quote", 5}, {"mixed", 10}}) {
+		switch g.weighted("lik", []wc{{"inline", 45}, {"p", 20}, {"nested", 15}, {"pre", 5}, {"quote", 5}, {"mixed", 10}, {"table", g.P.TablesInLists}, {"tabletext", g.P.TablesInLists}}) {
+		case "table":
+			b.WriteString(g.dataTable())
+		case "tabletext":
+			b.WriteString(g.inline(g.plen()) + g.dataTable())
 		case "inline":
 			b.WriteString(g.inline(g.plen()))
 		case "p":
@@ -294,7 +326,9 @@ func (g *G) quote() string {
 	b.WriteString("<blockquote" + g.at("blockquote") + ">")
 	n := g.intn(1, 3, "q#")
 	for i := 0; i < n; i++ {
-		switch g.weighted("qk", []wc{{"p", 60}, {"list", 15}, {"pre", 10}, {"inline", 15}}) {
+		switch g.weighted("qk", []wc{{"p", 60}, {"list", 15}, {"pre", 10}, {"inline", 15}, {"table", g.P.TablesInLists}}) {
+		case "table":
+			b.WriteString(g.dataTable())
 		case "p":
 			b.WriteString(g.para())
 		case "list":
@@ -426,6 +460,12 @@ func (g *G) srcset(kind string) string {
 
 func (g *G) img() string {
 	s := `<img src="` + g.url("img") + `" alt="` + g.tokp("alt") + `"`
+	switch g.intn(0, 9, "imglazy") {
+	case 8:
+		s += ` data-src="` + g.url("img") + `"`
+	case 9:
+		s = `<img src="/static/placeholder.gif" data-original="` + g.url("img") + `" alt="` + g.tokp("alt") + `"`
+	}
 	if g.chance(30, "imgss") {
 		s += ` srcset="` + g.srcset("srcset") + `"`
 	}
@@ -690,6 +730,25 @@ func (g *G) block(kind string) string {
 		return "<div><li>" + g.inline(g.plen()) + "</li><li>" + g.inline(g.plen()) + "</li></div>\n"
 	case "ulinline":
 		return "<ul><b>" + g.words(g.intn(1, 20, "uiw")) + "</b><li>" + g.inline(g.plen()) + "</li></ul>\n"
+	case "unlikely":
+		var marker string
+		if g.chance(75, "ulclass") {
+			marker = ` class="` + g.pick("ulm", c20Markers...) + `"`
+		} else {
+			marker = ` role="` + g.pick("ulr", c20Roles...) + `"`
+		}
+		inner := ""
+		switch g.pick("ulk", "links", "para", "short", "mixed") {
+		case "links":
+			inner = g.linkCluster()
+		case "para":
+			inner = g.para()
+		case "short":
+			inner = g.chrome()
+		default:
+			inner = g.linkCluster() + g.para()
+		}
+		return "<div" + marker + ">" + inner + "</div>\n"
 	case "inlineimg":
 		return "<p>" + g.inline(g.plen()) + " " + strings.TrimSpace(g.img()) + " " + g.inline(g.plen()) + "</p>\n"
 	}
